@@ -5,10 +5,10 @@
     Everything written by hand in THIS file (documented formulas, documented magnitudes, the attribute
     spelling rule, the list of extra names) comes from the docstring/comment block of context.py, not from
     its code. *)
-From Coq Require Import ZArith List String Ascii Bool QArith Qabs.
+From Coq Require Import ZArith List String Ascii Bool QArith Qabs Qpower.
 Require Import QV.Common.Outcome QV.Common.DecC02 QV.Common.StrC02.
 Require Import QV.Gen.Codata2014 QV.Gen.Codata2018 QV.Gen.CodataRaw2014 QV.Gen.CodataRaw2018 QV.Gen.CodataJson2014 QV.Gen.Aliases.
-Require Import QV.Model.Constants QV.Proofs.Constants.
+Require Import QV.Model.Constants QV.Proofs.Constants QV.Proofs.DecimalC02 QV.Proofs.FloatC02.
 Import ListNotations.
 Open Scope string_scope.
 
@@ -246,6 +246,71 @@ Theorem C02_decimal_short_product_exact : forall a b, (ndigits (coef a * coef b)
   dec_mul a b = mkdec (coef a * coef b) (dexp a + dexp b).
 Proof. exact dec_mul_exact. Qed.
 
+(** ** The Decimal arithmetic is a CORRECT ROUNDING — for all operands (unbounded coefficients and exponents).
+    [ten ^ z] is 10^z in Q; [rhe] is round-half-even of a quotient of integers. *)
+
+(** Decimal._fix: a coefficient of at most 28 digits is kept; otherwise the result is  sign * q1 * u  with
+    u = 10^(exp + digits - 28) (one unit in the 28th digit), 10^27 <= q1 <= 10^28, within u/2 of the operand, and on an exact
+    tie the kept coefficient q1 is even; the stored coefficient has at most 28 digits. *)
+Theorem C02_decimal_fix_is_correct_rounding : forall d,
+  ((ndigits (coef d) <= prec)%Z -> dec_fix d = d) /\
+  ((prec < ndigits (coef d))%Z -> exists q1 : Z,
+      let u := (ten ^ (dexp d + ndigits (coef d) - prec))%Q in
+      (10 ^ 27 <= q1 <= 10 ^ 28)%Z
+      /\ (dec2Q (dec_fix d) == inject_Z (Z.sgn (coef d) * q1) * u)%Q
+      /\ (2 * Qabs (dec2Q (dec_fix d) - dec2Q d) <= u)%Q
+      /\ ((2 * Qabs (dec2Q (dec_fix d) - dec2Q d) == u)%Q -> Z.even q1 = true)
+      /\ (Z.abs (coef (dec_fix d)) < 10 ^ prec)%Z).
+Proof. exact dec_fix_correct. Qed.
+
+(** the digit count used by it is the true one *)
+Theorem C02_decimal_ndigits : forall n, n <> 0%Z ->
+  (1 <= ndigits n /\ 10 ^ (ndigits n - 1) <= Z.abs n < 10 ^ ndigits n)%Z.
+Proof. exact ndigits_spec. Qed.
+
+(** Decimal.__mul__: the correct rounding (above) of the exact product *)
+Theorem C02_decimal_mul_rounds_exact_product : forall a b,
+  exists p, dec_mul a b = dec_fix p /\ (dec2Q p == dec2Q a * dec2Q b)%Q.
+Proof.
+  intros a b. exists (mkdec (coef a * coef b) (dexp a + dexp b)). split; [reflexivity|].
+  rewrite !dec2Q_val. cbn [coef dexp]. rewrite inject_Z_mult, (Qpower_plus ten _ _ ten_nz). ring.
+Qed.
+
+(** Decimal.__truediv__ (non-zero operands): the result is [dec_fix d1] where either d1 is the exact quotient (then the
+    theorem above applies), or d1 has more than 28 digits and the result is STRICTLY within half a unit in its 28th digit of
+    the exact quotient (so no tie can occur and the remainder trick never mis-rounds). *)
+Theorem C02_decimal_div_is_correct_rounding : forall a b, coef a <> 0%Z -> coef b <> 0%Z ->
+  exists d1, dec_div a b = Some (dec_fix d1)
+    /\ ((dec2Q d1 == dec2Q a / dec2Q b)%Q
+        \/ ((prec < ndigits (coef d1))%Z
+            /\ (2 * Qabs (dec2Q (dec_fix d1) - dec2Q a / dec2Q b) < ten ^ (dexp d1 + ndigits (coef d1) - prec))%Q)).
+Proof. exact dec_div_correct. Qed.
+
+(** ** float(Decimal) *)
+
+(** What the executable specification means: [m * 2^e] has a 53-bit mantissa and a binary64 exponent, carries the sign of
+    the decimal, and NO number with a 53-bit mantissa (any exponent) is closer to |d|; if another one is equally close, m is even. *)
+Theorem C02_nearest64_ok_meaning : forall neg m e d, nearest64_ok neg m e d = true ->
+  mant m /\ (-1074 <= e <= 971)%Z /\ neg = (coef d <? 0)%Z /\ ~ (dec2Q d == 0)%Q /\
+  forall m' e', mant m' ->
+    (Qabs (Qabs (dec2Q d) - inject_Z m * two ^ e) <= Qabs (Qabs (dec2Q d) - inject_Z m' * two ^ e'))%Q
+    /\ ((Qabs (Qabs (dec2Q d) - inject_Z m * two ^ e) == Qabs (Qabs (dec2Q d) - inject_Z m' * two ^ e'))%Q ->
+        ~ (inject_Z m * two ^ e == inject_Z m' * two ^ e')%Q -> Z.even m = true).
+Proof. exact nearest64_ok_meaning. Qed.
+
+(** For EVERY constant of both sets (published, legacy, alias) the float form the model delivers — which the correspondence
+    compares bit for bit with float(Decimal) of the implementation — is the double nearest to the Decimal value, ties to even. *)
+Theorem C02_float_is_nearest : forall c k d, In (k, d) (pc c) ->
+  exists neg m e, nearest64 (d_data d) = Some (neg, m, e) /\ nearest64_ok neg m e (d_data d) = true.
+Proof.
+  intros c k d Hin.
+  assert (A : forallb (fun kv : string * datum =>
+             match nearest64 (d_data (snd kv)) with Some (n, m, e) => nearest64_ok n m e (d_data (snd kv)) | None => false end) (pc c) = true)
+    by (destruct c; vm_compute; reflexivity).
+  pose proof (proj1 (forallb_forall _ _) A _ Hin) as H. cbn [snd] in H.
+  destruct (nearest64 (d_data d)) as [[[n m] e]|]; [|discriminate]. exists n, m, e. split; [reflexivity | exact H].
+Qed.
+
 (** ** Examples (the hypotheses above are inhabited, on non-trivial values) *)
 Example C02_ex_row : In ("speed of light in vacuum", "299 792 458", "(exact)", "m s^-1") (raw C2014)
   /\ In ("electric constant", "8.854 187 817... e-12", "(exact)", "F m^-1") (raw C2014)
@@ -285,3 +350,9 @@ Print Assumptions C02_legacy_spelling.
 Print Assumptions C02_legacy_tau_attribute.
 Print Assumptions C02_decimal_mul_commutes.
 Print Assumptions C02_decimal_short_product_exact.
+Print Assumptions C02_decimal_fix_is_correct_rounding.
+Print Assumptions C02_decimal_ndigits.
+Print Assumptions C02_decimal_mul_rounds_exact_product.
+Print Assumptions C02_decimal_div_is_correct_rounding.
+Print Assumptions C02_nearest64_ok_meaning.
+Print Assumptions C02_float_is_nearest.
